@@ -39,7 +39,7 @@ def goals(tier):
     for fam in ("generic", "kit", "registry"):
         for z in ("group1", "group2", "group3", "match-flank", "outside-match"):
             g.append("{}:origin-in-{}".format(fam, z))
-    return g + ["generic:part-class", "generic:vector", "kit:vector", "registry:vector", "rejected-stays-rejected", "generic:self-overlapping-site", "generic:every-presentation"]
+    return g + ["generic:part-class", "generic:vector", "kit:vector", "registry:vector", "rejected-stays-rejected", "generic:self-overlapping-site", "generic:every-presentation", "generic:assembly-of-a-vector-with-a-lone-site-in-its-backbone"]
 
 
 # ---------------------------------------------------------------------------------------------
@@ -261,6 +261,30 @@ def unit_generic(st, enz):
                 s2 = mods[0] + g.site[: L - border]
                 jobs.append((part_class(enz, "module", (ovs[0], ovs[1])), s2, "part-module-overlapping-site-copy"))
                 st.goal("generic:self-overlapping-site")
+        if lens is None:
+            # a signature-typed vector part whose BACKBONE holds one more (lone) site of its enzyme, forward or reverse: its
+            # structure still occurs exactly once; typing and the product of an assembly must not depend on where the origin is
+            for extra, elabel in ((g.site, "forward"), (g.rsite, "reverse")):
+                vbb2 = scn["vbb"][:1] + extra + scn["vbb"][1:]
+                vec2 = gen.mk_vector(g, ovs[1], ovs[0], vbb2, scn["vph"], x=scn["vfill"][0], y=scn["vfill"][1])
+                pv = part_class(enz, "vector", (ovs[1], ovs[0]))
+                nst, _, _ = reference(pv, vec2)
+                if nst != 1:
+                    st.filtered += 1
+                    continue
+                jobs.append((pv, vec2, "part-vector-lone-%s-site-in-backbone" % elabel))
+                outs = {}
+                for r in range(len(vec2)):
+                    o = asm.run_assemble(pv(gen.crec(rm.rot_right(vec2, r), "v")), [M(gen.crec(mods[0], "m"))])
+                    key = (o.kind, rm.canon_rot(o.seq.upper()) if o.kind == "product" else o.exc_name)
+                    outs.setdefault(key, r)
+                    st.scenario("assembly-rotated", None, nodes=0)
+                    st.nontrivial += 1
+                st.goal("generic:assembly-of-a-vector-with-a-lone-site-in-its-backbone")
+                if len(outs) > 1:
+                    st.violation("generic", "assembly-outcome-changes-under-rotation-of-the-vector",
+                                 dict(family="generic-assembly", enz=enz, vector=vec2, module=mods[0], signature=[ovs[1], ovs[0]], rotations=sorted(outs.values())),
+                                 "one outcome", [[k_[0], str(k_[1])[:60], r_] for k_, r_ in outs.items()])
         for cls, s, label in jobs:
             check_record(st, "generic", cls, s, range(len(s)), (">>", "fresh"),
                          dict(family="generic", enz=enz, cls_kind=label, lens=lens, seq=s, cls=cls.__name__, presentations=lens is None and enz in ("BsaI", "BbsI", "FokI"),
@@ -348,6 +372,16 @@ def run_unit(unit, st, tier):
 
 def replay(scn, sub, st):
     fam = scn["family"]
+    if fam == "generic-assembly":
+        M, V = gen.generic_classes(scn["enz"])
+        pv = part_class(scn["enz"], "vector", tuple(scn["signature"]))
+        outs = {}
+        for r in scn["rotations"]:
+            o = asm.run_assemble(pv(gen.crec(rm.rot_right(scn["vector"], r), "v")), [M(gen.crec(scn["module"], "m"))])
+            outs.setdefault((o.kind, rm.canon_rot(o.seq.upper()) if o.kind == "product" else o.exc_name), r)
+        if len(outs) > 1:
+            st.violation("generic", "assembly-outcome-changes-under-rotation-of-the-vector", scn, "one outcome", [[k_[0], str(k_[1])[:60], r_] for k_, r_ in outs.items()])
+        return
     if fam == "registry":
         row = regs.by_id(scn["reg"], scn["id"])
         s = row["seq"]
